@@ -143,8 +143,7 @@ def r4(p, rep):
                 recv = node.func.value
                 if not isinstance(recv, ast.Name):
                     continue
-                defs = [a.value for a in walk_no_nested(f.node) if isinstance(a, ast.Assign) and any(isinstance(t, ast.Name) and t.id == recv.id for t in a.targets)]
-                is_set = bool(defs) and all(isinstance(d, (ast.Set, ast.SetComp)) or (isinstance(d, ast.Call) and norm(d.func) in ("set", "frozenset")) for d in defs)
+                is_set = _is_set_expr(p, f, recv)
                 if not is_set or not isinstance(st, (ast.Assign, ast.Return)):
                     continue
                 n += 1
@@ -208,6 +207,33 @@ def r5(p, rep):
     rep.add("C07.R5", f"{f.qualname}:only-without-brackets", f.loc, ok, "automatic marking applies only if no input has brackets")
 
 
+def _parents_of(g):
+    g = g.parent
+    while g is not None:
+        yield g
+        g = g.parent
+
+
+def _is_set_expr(p, f, d, depth=0):
+    """does the expression evaluate to a set? displays, comprehensions, set()/frozenset(), a local bound only to such,
+    a call of a project function all of whose returns are such"""
+    if depth > 3 or d is None:
+        return False
+    if isinstance(d, (ast.Set, ast.SetComp)):
+        return True
+    if isinstance(d, ast.Call) and norm(d.func) in ("set", "frozenset"):
+        return True
+    if isinstance(d, ast.Name):
+        defs = [a.value for a in walk_no_nested(f.node) if isinstance(a, ast.Assign) and any(isinstance(t, ast.Name) and t.id == d.id for t in a.targets)]
+        return bool(defs) and all(_is_set_expr(p, f, v, depth + 1) for v in defs)
+    if isinstance(d, ast.Call):
+        r = resolve_callee(p, d, f.module)
+        if r and r[0] == "func":
+            rets = [x.value for x in walk_no_nested(r[1].node) if isinstance(x, ast.Return)]
+            return bool(rets) and all(_is_set_expr(p, r[1], v, depth + 1) for v in rets)
+    return False
+
+
 def r6(p, rep):
     rep.rule("C07.R6", "keepdims is implemented by one rewrite of the description (brackets wrapped in parentheses)", "T-DER [S]", floor=1)
     m = p.module("adapter.einx_from_namedtensor")
@@ -219,6 +245,15 @@ def r6(p, rep):
         for n in walk_no_nested(f.node):
             if isinstance(n, ast.Call) and "FlattenedAxis" in norm(n.func):
                 facts = common.lexical_facts(f, n)
+                # a module-level callback (`stage1.map(expr, _bracket_to_unit_axis)`): the facts where it is referred to
+                top = f
+                while top.parent is not None:
+                    top = top.parent
+                for h in p.funcs.values():
+                    if h.module is m and h is not top and top not in list(_parents_of(h)):
+                        for x in walk_no_nested(h.node):
+                            if isinstance(x, ast.Name) and x.id == top.name and isinstance(x.ctx, ast.Load):
+                                facts += common.lexical_facts(h, x)
                 texts = [(norm(t), pol) for t, pol in facts]
                 if any(t in ("keepdims", "keepdims is True", "keepdims == True") and pol for t, pol in texts):
                     hits.append((f, n, texts))
